@@ -9,7 +9,9 @@ for m in sorted(glob.glob(os.path.join(VERIF, "seeded", "*", "meta.json"))):
     files = sorted(set(l.split(" b/")[-1].strip() for l in patch.splitlines() if l.startswith("diff --git")))
     needs = (d.get("needs") or "").strip().splitlines()
     first = next((l.strip("# ").strip() for l in needs if l.strip() and not l.startswith("#")), "")
+    retired = os.path.exists(os.path.join(os.path.dirname(m), "RETIRED.md"))
     det = ", ".join("%s (%s)" % (c, "; ".join(v["keys"][:2])[:110]) for c, v in d["checks"].items() if v["detected"]) or "NOT DETECTED"
+    if retired: det = "RETIRED - no longer property-breaking on the current tree, see RETIRED.md (was detected: see meta.json history in git)"
     rows.append("| %s | %s | %s | %d pass | demo exit %s / %s | %s |" % (d["seed_id"], d["property"], ", ".join(files), d["tests_passed_with_change"], d["demo_exit_with_change"], d["demo_exit_without_change"], det))
 out = ["# Seeded property-breaking changes", "",
        "Each change was written by an independent sub-agent that saw only the property text and a scratch worktree (nothing from /verif).",
